@@ -176,8 +176,10 @@ func (w *World) lowerFunc(pkg *Pkg, key string, fd *ast.FuncDecl, fc *FuncContra
 				e.nonNil[base] = true
 			}
 			e.assume(Lt(v.T, e.nextObj()))
+			e.assumeTyping(v)
 		case VStruct:
 			e.assume(And(Gt(v.T, IntLit(0)), Lt(v.T, e.nextObj())))
+			e.assumeTyping(v)
 		}
 	}
 	if fd.Recv != nil && len(fd.Recv.List) == 1 {
@@ -247,12 +249,14 @@ func (w *World) lowerFunc(pkg *Pkg, key string, fd *ast.FuncDecl, fc *FuncContra
 	e.emit(Cmd{Kind: CAssert, T: False, Ob: &Obligation{Name: e.short + "#cover.entry", Func: e.short, Kind: "cover", Cover: true, Descr: "preconditions are satisfiable"}})
 
 	// body
+	e.pseudoAnchor("$entry", true)
 	e.block(fd.Body.List)
 	e.jump(e.exitB)
 
 	// exit chain
 	e.cur = e.exitB
 	e.runDefers()
+	e.pseudoAnchor("$exit", false)
 	mayPanic := fc != nil && fc.MayPanic
 	pv := e.panicVar()
 	if fc != nil {
@@ -440,4 +444,18 @@ func (w *World) usesDep(key string, fc *FuncContract) bool {
 		}
 	}
 	return false
+}
+
+
+// pseudoAnchor runs the ghost clauses anchored at function entry/exit.
+func (e *Env) pseudoAnchor(name string, before bool) {
+	if e.fc == nil {
+		return
+	}
+	for _, cl := range e.fc.Clauses {
+		if cl.Anchor == name && cl.Before == before {
+			e.usedCl[cl] = true
+			e.ghostClause(cl)
+		}
+	}
 }
